@@ -26,7 +26,7 @@ DIAG = [
     ["--log-level", "WARNING"], ["--log-level", "ERROR"], ["--stack-trace"], ["--stack-trace", "--log-level", "WARNING"],
     ["--log-file", "LOG"], ["--log-file", "LOG", "--log-level", "ERROR", "--stack-trace"], ["--log-level", "CRITICAL", "--stack-trace"],
 ]
-# verbose levels write megabytes per document: exercised on every tenth document only
+# verbose levels write megabytes per document (seconds of logging each): exercised on every 40th document only
 DIAG_VERBOSE = [["--log-level", "DEBUG"], ["--log-level", "INFO"], ["--log-file", "LOG", "--log-level", "DEBUG", "--stack-trace"], ["--stack-trace", "--log-level", "INFO"]]
 
 
@@ -150,8 +150,8 @@ def run_items(items, job):
                 detail["cli_stdin"] = [rc, out[:300], err[:200]]
         # diagnostics must be inert
         variants = [DIAG[idx % len(DIAG)]]
-        if idx % 10 == 0:
-            variants.append(DIAG_VERBOSE[(idx // 10) % len(DIAG_VERBOSE)])
+        if idx % 40 == 0:
+            variants.append(DIAG_VERBOSE[(idx // 40) % len(DIAG_VERBOSE)])
         for extra in variants:
             extra = list(extra)
             R.count("diagnostic_variants")
